@@ -348,7 +348,9 @@ func (fc *FuncCtx) oblige(kind, label, guard, goal, desc string, tags []string) 
 	fc.q.obls = append(fc.q.obls, o)
 	// assert-then-assume (never for an unconditional `false`: that would make
 	// everything after an undischarged obligation vacuously provable)
+	o.assumeIdx = -1
 	if goal != "false" {
+		o.assumeIdx = len(fc.q.items)
 		fc.q.assume(fmt.Sprintf("(=> %s %s)", guard, goal))
 	}
 	return o
